@@ -12,10 +12,12 @@ def run_blocks(tier):
     sd = vlib.scratch('c02b')
     try:
         outp = os.path.join(sd, 'out.json')
-        r = vlib.run_cmd([binp, '-out', outp, '-seed', str(vlib.seed()), '-rounds', '3' if tier == 'quick' else '30'], timeout=3000)
+        r = vlib.run_cmd([binp, '-out', outp, '-seed', str(vlib.seed()), '-rounds', '4' if tier == 'quick' else '32'], timeout=3000)
         if r.returncode != 0 or not os.path.exists(outp):
             raise vlib.Infra('c02blocks failed: ' + (r.stdout + r.stderr)[-3000:])
         out = json.load(open(outp))
+        if out.get('infra') and not out.get('findings'):
+            raise vlib.Infra('c02blocks: ' + '; '.join(out['infra'])[:1500])
         viols = []
         seen = set()
         for f in out.get('findings') or []:
@@ -26,6 +28,7 @@ def run_blocks(tier):
             viols.append({'property': f['property'], 'kind': 'property', 'signature': 'blocks|' + f['signature'], 'msg': f['msg'], 'replay': path})
         stats = {k: out[k] for k in ('requests', 'acked', 'blocks', 'rows', 'signature_counts')}
         stats['request_classes'] = len(out.get('classes') or {})
+        stats['acked_by_protocol'] = out.get('acked_by_protocol')
         return {'violations': viols, 'stats': stats}
     finally:
         shutil.rmtree(sd, ignore_errors=True)
